@@ -349,6 +349,25 @@ class Assembler:
                         continue
             # 14: let-chain  `if let PAT = EXPR && COND { BODY }` (no else)  ->  `if let PAT = EXPR { if COND { BODY } }`
             # (Verus rejects let-chains; without an else branch the nesting is the language's own definition of the chain)
+            # 24: a fixed-size array sub-pattern of identifiers inside an `if let` pattern (Verus: "slice patterns" unsupported):
+            # `if let Some([a, b]) = E { B }` becomes `if let Some(verif_arrN) = E { let a = verif_arrN[0]; let b = verif_arrN[1]; B }`
+            # (for a let-chain the `let`s go in front of the next conjunct) -- the meaning of the irrefutable array pattern
+            arr_lets = {}
+            if s.is_id(k, 'if') and s.is_id(k + 1, 'let'):
+                q = k + 2
+                while q < end and not s.is_p(q, '=') and not s.is_p(q, '{'):
+                    if s.is_p(q, '['):
+                        qc = m[q]
+                        inner_ = [x for x in range(q + 1, qc)]
+                        ids_ = [x for x in inner_ if s.is_id(x)]
+                        seps_ = [x for x in inner_ if not s.is_id(x)]
+                        if ids_ and all(s.is_p(x, ',') for x in seps_) and len(ids_) == len(seps_) + 1 or (ids_ and all(s.is_p(x, ',') for x in seps_) and len(ids_) == len(seps_)):
+                            nm = 'verif_arr%d' % q
+                            ed.replace(s.t[q][1], s.t[qc][2], nm)
+                            arr_lets[k] = ' '.join('let %s = %s[%d];' % (s.s(x), nm, i_) for i_, x in enumerate(ids_))
+                            self.fired.add('24:array-pattern-to-indexing')
+                        q = qc
+                    q += 1
             if s.is_id(k, 'if') and s.is_id(k + 1, 'let') and not s.is_id(k - 1, 'else'):
                 j = k + 2
                 d = 0
@@ -370,10 +389,12 @@ class Assembler:
                         raise ExtractError('unsupported construct: let-chain with an else branch in fn %s' % fp.item.name)
                     # every top-level `&&` of the chain opens one more nested `if` (a conjunct that starts with `let` becomes an
                     # `if let`); a `let` scrutinee cannot itself contain a top-level `&&`, so the split is the language's own
-                    for k_and in k_ands:
-                        ed.replace(s.t[k_and][1], s.t[k_and][2], '{ if')
+                    for i_and, k_and in enumerate(k_ands):
+                        ed.replace(s.t[k_and][1], s.t[k_and][2], '{ ' + (arr_lets.pop(k, '') + ' ' if i_and == 0 else '') + 'if')
                     ed.insert(s.t[kc][2], ' }' * len(k_ands))
                     self.fired.add('14:let-chain-to-nested-if')
+                if k in arr_lets and j < end and s.is_p(j, '{'):
+                    ed.insert(s.t[j][2], ' ' + arr_lets.pop(k) + ' ')
             # 16: `if COND { continue; }` as a statement directly inside a for-loop body (Verus: "for-loops do not yet support
             # continue")  ->  `if COND { } else { <rest of the loop body> }`
             if s.is_id(k, 'if') and not s.is_id(k - 1, 'else') and k in getattr(self, '_for_body_stmt_starts', {}).get(id(fp), {}):
@@ -603,7 +624,37 @@ class Assembler:
         fp = FnParts(item)
         loops = fp.loops()
         m = s.match()
-        is_block = 'block_after' in lf
+        is_block = 'block_after' in lf or 'let_init' in lf
+        if 'let_init' in lf:
+            # 23c: the initializer expression of `let NAME = <expr>;` is lifted as a function returning its value
+            k0_, k1_ = fp.find_stmt('let %s' % lf['let_init'], lf.get('n', 0))
+            k1_ += 1
+            d__ = 0
+            while k1_ < fp.k_body_close and not (d__ == 0 and s.is_p(k1_, '=')):
+                if s.kind(k1_) == 'p' and s.s(k1_) in '<([':
+                    d__ += 1
+                elif s.kind(k1_) == 'p' and s.s(k1_) in '>)]':
+                    d__ -= 1
+                k1_ += 1
+            ka_ = k1_ + 1
+            kb_ = fp.stmt_end(ka_) - 1
+            if kb_ < ka_:
+                raise ExtractError('lost anchor: initializer of `let %s` in fn %s' % (lf['let_init'], fnname))
+            for q in range(ka_, kb_ + 1):
+                if s.is_id(q, 'self') and lf.get('self_as'):
+                    ed.replace(s.t[q][1], s.t[q][2], lf['self_as'])
+                if (s.is_id(q, 'continue') or s.is_id(q, 'break') or s.is_id(q, 'return')):
+                    raise ExtractError('unsupported construct: control transfer inside the lifted initializer of `let %s` in fn %s' % (lf['let_init'], fnname))
+            body = ed.apply(s.text, s.t[ka_][1], s.t[kb_][2])
+            res = spec.get('result')
+            head = 'pub fn %s%s(%s) -> %s\n' % (lf['name'], lf.get('generics', ''), lf['params'], ('(%s: %s)' % (res, lf['ret'])) if res else lf['ret'])
+            txt = self.clauses('requires', spec.get('requires', []), '    ', fnname)
+            ens = list(spec.get('ensures', []))
+            txt += self.clauses('ensures', ens, '    ', fnname)
+            if is_canary:
+                txt += ('    ensures\n' if not ens else '') + '        false, // @canary\n'
+            self.fired.add('23c:let-initializer-lifting')
+            return head + txt + '{ ' + body + ' }'
         if is_block:
             # 23b: the `{ .. }` block that follows an anchor (e.g. the then-branch of `if COND`) is lifted the same way; its own
             # tail expression / `return`s give the function's value, so no tail is appended; a `continue` / `break` that belongs
